@@ -98,6 +98,16 @@ D = {
  "C04-e": ("parallel/map.go.tmpl: a MapEnd function of type func(context.Context) error is scheduled directly, without the closure holding the recover", "a panic in a MapEnd function with exactly that signature"),
  "C13-e": ("compile.go isPackagePathEquivalent collapsed to a suffix test", "a file importing `time` and a local package whose path ends in /time, a type of the latter as flow value type"),
  "C20-e": ("process.go: InstrumentAllTasks only passed on in base mode", "-genmode=source-map together with -auto-instrument on a flow with InstrumentFlow and an uninstrumented task"),
+ "C01-e": ("loop enqueue arm filters job.deps in place (`waitingOn := job.deps[:0]`): the caller's Dependencies backing array is overwritten", "Dependencies slices of different jobs sharing one backing array at different offsets; an earlier dependency finished, later ones not"),
+ "C03-e": ("flow templates: a predicate that needs only flow inputs runs inline on the caller goroutine instead of as a job", "a flow with such a predicate declared after >= N independent tasks that are still running"),
+ "C06-e": ("loop: head-of-ready jobs whose context is done are finished above the select; the exit test stays below it", "ContinueOnError; context cancelled mid-run, Wait reached, jobs still queued when the last result comes back"),
+ "C07-e": ("per-job `remaining` counter replaced by a blocked(j) scan of the done flags", "a job whose Dependencies name the same job twice (a multi-result task feeding two results into one consumer)"),
+ "C08-e": ("loop donec arm: `if !s.continueOnError || isContextError(err)` - context-flavoured errors stop the scheduler", "ContinueOnError; a task returning an error wrapping context.Canceled / DeadlineExceeded, or a job skipped under its own cancelled context"),
+ "C09-e": ("parallel/slice.go.tmpl: SliceEnd is called by the element job that counts an atomic down to zero instead of being a job", "context done after every element has started, all elements returning nil"),
+ "C11-e": ("flow/task.go.tmpl: shared taskFallback sub-template skips the store when the fallback is the literal nil", "FallbackWith(nil) for some output, the task fails and returns a non-zero value in that position"),
+ "C12-e": ("Enqueue copies Dependencies through an unsynchronised block allocator (Scheduler.depsBlock)", "Enqueue from >= 2 goroutines with non-empty Dependencies"),
+ "C19-e": ("ticker arm: IdleWorkers computed from pending - waiting instead of ongoing", "a state report while a job sits in the ready list and a worker is free"),
+ "C05-e": ("Enqueue: non-blocking send, then select between the send and ctx.Done(): a job whose context is done may never reach the loop", "a job enqueued with its own, already cancelled context while the one-slot enqueue channel is occupied; a later job depends on it; Wait with a live context"),
 }
 rows = []
 for sid in sorted(D):
